@@ -13,7 +13,7 @@ from ..boot import M, priv
 
 PROP = 'C11'
 LEVEL = 'exploration'
-INVARIANTS = ('arg_mismatch', 'tick_exception', 'not_applied_everywhere', 'applied_twice', 'submit_exception')
+INVARIANTS = ('arg_mismatch', 'tick_exception', 'not_applied_everywhere', 'applied_twice', 'submit_exception', 'sent_entry_not_in_log')
 for _i in INVARIANTS:
     INV_PROP[_i] = PROP
 RULE = ('one case = one benign-schedule execution of a 2-3 voter cluster in which every command is echo(tag, *args, **kwargs) '
